@@ -987,8 +987,12 @@ func TestC10(t *testing.T) {
 		return
 	}
 	if p := os.Getenv("VERIF_REPLAY"); p != "" {
-		replay(t, p)
-		return
+		if b, err := os.ReadFile(p); err == nil && strings.Contains(string(b), "\"signature\": \"conversion-kills-the-process:") {
+			_ = os.Unsetenv("VERIF_REPLAY") // no single case to replay: the sweep is run again
+		} else {
+			replay(t, p)
+			return
+		}
 	}
 	// The sweep runs in a child process: the workers convert in parallel, and a conversion that corrupts shared state of
 	// the package can end the process with a Go runtime "fatal error" that nothing recovers. "Conversions never panic":
